@@ -474,6 +474,27 @@ pub fn f_lib(_thorough: bool) -> Vec<Ty> {
 /// All generated families: (module name, types). Thorough-only families list only the types
 /// that are not already part of the quick family.
 pub fn all_families() -> Vec<(&'static str, Vec<Ty>)> {
+    static CACHE: std::sync::OnceLock<Vec<(&'static str, Vec<Ty>)>> = std::sync::OnceLock::new();
+    CACHE.get_or_init(compute_families).clone()
+}
+pub fn family(name: &str) -> Vec<Ty> {
+    // computed lazily and separately: child processes of the engines start thousands of times
+    // and usually need only the quick families
+    static CACHE: std::sync::OnceLock<std::sync::Mutex<std::collections::HashMap<String, Vec<Ty>>>> = std::sync::OnceLock::new();
+    let m = CACHE.get_or_init(Default::default);
+    if let Some(v) = m.lock().unwrap().get(name) {
+        return v.clone();
+    }
+    let v = match name {
+        "types" => f_types(false),
+        "lib" => f_lib(false),
+        "hist" => crate::hist::hist_tree(false).into_iter().map(|n| n.ty).collect(),
+        other => compute_families().into_iter().find(|(n, _)| *n == other).map(|x| x.1).unwrap_or_default(),
+    };
+    m.lock().unwrap().insert(name.to_string(), v.clone());
+    v
+}
+fn compute_families() -> Vec<(&'static str, Vec<Ty>)> {
     let quick = f_types(false);
     let names: std::collections::HashSet<String> = quick.iter().map(|t| t.rust()).collect();
     let extra: Vec<Ty> = f_types(true).into_iter().filter(|t| !names.contains(&t.rust())).collect();
@@ -481,7 +502,4 @@ pub fn all_families() -> Vec<(&'static str, Vec<Ty>)> {
     let hnames: std::collections::HashSet<String> = hq.iter().map(|t| t.rust()).collect();
     let hextra: Vec<Ty> = crate::hist::hist_tree(true).into_iter().map(|n| n.ty).filter(|t| !hnames.contains(&t.rust())).collect();
     vec![("types", quick), ("lib", f_lib(false)), ("hist", hq), ("types_thorough", extra), ("hist_thorough", hextra)]
-}
-pub fn family(name: &str) -> Vec<Ty> {
-    all_families().into_iter().find(|(n, _)| *n == name).map(|x| x.1).unwrap_or_default()
 }
